@@ -6,11 +6,11 @@ A *multi spec* is
 
     {"shape": ..., "decls": [{"stack": 0|1, "flavor": "Linux64"|"generic", "name": n, "version": v,
                               "deps": [{"name", "version"|None, "optional"}], "tags": ["current", "stable"],
-                              "dir": "in" | "out" | "none" | ["share", i]}, ...]}
+                              "dir": "in" | "out" | "none" | ["share", i] | ["inside", i]}, ...]}
 
 materialised as two stacks /s1:/s2 on EUPS_PATH (each built on its own, the way stacks come into being, with an Eups of
 the declaration's flavor), product directories inside the stack, outside it, the placeholder none, or shared with
-declaration i.  Commands run under the running flavor Linux64 with the fall-back generic:
+declaration i (the very directory) or a directory of its own inside the directory of declaration i.  Commands run under the running flavor Linux64 with the fall-back generic:
 
     {"via": "cli"|"api", "args": [name, version], "recursive", "check", "force", "interactive": None|True|False,
      "answers": [lines of standard input]}
@@ -45,8 +45,15 @@ def dkey(d):
     return (d["stack"], d["flavor"], d["name"], d["version"])
 
 
+def is_share(d):
+    k = d.get("dir", "in")
+    return isinstance(k, list) and k[0] == "share"
+
+
 def decl_dir(base, spec, d):
     k = d.get("dir", "in")
+    if isinstance(k, list) and k[0] == "inside":      # a directory of its own inside the directory of declaration i
+        return os.path.join(decl_dir(base, spec, spec["decls"][k[1]]), "nested-%d-%s-%s" % (d["stack"], d["name"], d["version"]))
     if isinstance(k, list):
         return decl_dir(base, spec, spec["decls"][k[1]])
     if k == "none":
@@ -72,13 +79,15 @@ def fresh_eups(base, **kw):
 def declare_one(base, spec, d, e=None):
     root = os.path.join(base, STACKS[d["stack"]][1:])
     pdir = decl_dir(base, spec, d)
-    own = not isinstance(d.get("dir", "in"), list) and pdir != "none"
+    own = not is_share(d) and pdir != "none"
     if own:
         os.makedirs(os.path.join(pdir, "ups"), exist_ok=True)
         tf = os.path.join(pdir, "ups", d["name"] + ".table")
         with open(os.path.join(pdir, "README"), "w") as f:
             f.write("%s %s %s\n" % (d["name"], d["version"], d["flavor"]))
     else:
+        if pdir != "none":
+            os.makedirs(pdir, exist_ok=True)        # shared with a declaration that is materialised later
         tdir = os.path.join(root, "_tables")
         os.makedirs(tdir, exist_ok=True)
         tf = os.path.join(tdir, "%s-%s-%s.table" % (d["flavor"], d["name"], d["version"]))
@@ -190,8 +199,15 @@ def classify(ex):
     return "other:" + type(ex).__name__
 
 
-def cli_args(c):
+def order_of(c):
+    """the stacks the command looks at, in order: -Z <stack>[:<stack>] (Eups(path=...)); default the whole EUPS_PATH"""
+    return list(c["path"]) if c.get("path") else list(range(len(STACKS)))
+
+
+def cli_args(c, base=""):
     a = ["remove"]
+    if c.get("path"):
+        a += ["-Z", ":".join(base + STACKS[i] for i in c["path"])]
     if c.get("recursive"):
         a.append("-R")
     if not c.get("check", True):
@@ -205,6 +221,10 @@ def cli_args(c):
     return a + list(c["args"])
 
 
+def path_kw(base, c):
+    return {"path": [base + STACKS[i] for i in c["path"]]} if c.get("path") else {}
+
+
 def run_command(base, c, e=None):
     """one remove command; returns (outcome, message)"""
     eups = common.import_eups()
@@ -216,10 +236,10 @@ def run_command(base, c, e=None):
                 import eups.cmd  # noqa
                 shutil.rmtree(os.path.join(base, "user", "_caches_"), ignore_errors=True)
                 stackgen.reset_singletons()
-                status = eups.cmd.EupsCmd(args=cli_args(c) + ["--nolocks"], toolname="eups").run()
+                status = eups.cmd.EupsCmd(args=cli_args(c, base) + ["--nolocks"], toolname="eups").run()
                 return ("ok" if status == 0 else "status:%s" % status), ""
             if e is None:
-                e = fresh_eups(base, force=bool(c.get("force")))
+                e = fresh_eups(base, force=bool(c.get("force")), **path_kw(base, c))
             e.remove(c["args"][0], c["args"][1], bool(c.get("recursive")), checkRecursive=bool(c.get("check", True)),
                      interactive=bool(c.get("interactive")))
             return "ok", ""
@@ -257,13 +277,22 @@ def impl_spec(job):
         shutil.rmtree(os.path.join(base, "user", "_caches_"), ignore_errors=True)
         snapshot(base, "0")
         out = {"before": read_state(base), "edges": read_edges(fresh_eups(base), base), "results": [], "histories": []}
+        roots = [os.path.join(base, s[1:]) for s in STACKS]
         for c in job["cases"]:
             restore(base, "0")
+            set_env(base, roots)                      # Eups(path=...) rewrites EUPS_PATH in the environment
+            r = {}
+            if c.get("path"):
+                r["edges"] = read_edges(fresh_eups(base, **path_kw(base, c)), base)
+                set_env(base, roots)
             oc, msg = run_command(base, c)
-            out["results"].append({"outcome": oc, "msg": msg, "after": read_state(base)})
+            set_env(base, roots)
+            out["results"].append(dict(r, outcome=oc, msg=msg, after=read_state(base)))
         for h in job.get("histories", []):
             restore(base, "0")
-            e = fresh_eups(base)                      # the one object every step uses
+            set_env(base, roots)
+            hp = ([st for st in h if st.get("path")] or [{}])[0]          # one object = one path: every step carries the same
+            e = fresh_eups(base, **path_kw(base, hp))                   # the one object every step uses
             steps = []
             for step in h:
                 if "declare" in step:
@@ -272,7 +301,7 @@ def impl_spec(job):
                     continue
                 before = read_state(base)
                 try:
-                    edges = read_edges(fresh_eups(base), base)
+                    edges = read_edges(fresh_eups(base, **path_kw(base, hp)), base)
                 except Exception:  # noqa  an earlier step deleted a directory that a declared product shares (tree without C14-remove-keeps-shared-directory)
                     break           # and took its table file along: the history ends here
                 stackgen.reset_singletons()
@@ -306,9 +335,10 @@ def opt(v):
     return "N" if v is None else "S" + enc(v)
 
 
-def worlds(before, edges, variant):
+def worlds(before, edges, variant, sel=None):
     """ww: what _remove walks; wu: what Eups.uses reads (fixed: every declaration; pinned: those findProducts() lists)"""
-    native = set((n, v) for s, fl, n, v, _d, _t in before["decls"] if fl == FLAVOR)
+    vis = [STACKS[i] for i in sel] if sel is not None else STACKS
+    native = set((n, v) for s, fl, n, v, _d, _t in before["decls"] if fl == FLAVOR and s in vis)
     ww, seen = [], set()
     for d in edges:                               # path order: the first native declaration is the home
         k = (d["name"], d["version"])
@@ -334,14 +364,14 @@ def enc_world(w):
 
 
 def model_line(variant, before, edges, c):
-    ww, wu = worlds(before, edges, variant)
+    ww, wu = worlds(before, edges, variant, order_of(c))
     i = c.get("interactive")
     opts = "%d,%d,%d,%s" % (bool(c.get("recursive")), not c.get("check", True), bool(c.get("force")),
                             "N" if i is None else str(int(bool(i))))
     answers = c.get("answers", [])
     return "\t".join([
         "rmx", {"xpinned": "00", "nokeep": "10"}.get(variant, "11"), enc_world(ww), enc_world(wu),
-        ";".join(enc(s) for s in STACKS + ["/user"]),
+        ";".join(enc(s) for s in [STACKS[k] for k in order_of(c)] + ["/user"]),
         ";".join(",".join(enc(x) for x in d) for d in before["decls"]),
         ";".join(",".join(enc(x) for x in t) for t in before["tags"]),
         ";".join(enc(p) for p in before["fs"]),
@@ -366,11 +396,11 @@ def model_decode(line):
 
 # ------------------------------------------------------------------ independent reference (generator data only)
 
-def ref_resolve(decls, dep):
+def ref_resolve(decls, dep, order=(0, 1)):
     """which declaration a table line denotes: running flavor first, then generic; explicit version: the first stack
     that declares it; bare name: the first stack whose tag current (for that flavor) names a declared version"""
     for fl in FLAVORS:
-        for s in range(len(STACKS)):
+        for s in order:
             for d in decls:
                 if d["stack"] == s and d["flavor"] == fl and d["name"] == dep["name"]:
                     if dep.get("version") is None:
@@ -381,22 +411,22 @@ def ref_resolve(decls, dep):
     return None
 
 
-def ref_graph(decls):
-    return {dkey(d): [ref_resolve(decls, x) for x in d["deps"]] for d in decls}
+def ref_graph(decls, order=(0, 1)):
+    return {dkey(d): [ref_resolve(decls, x, order) for x in d["deps"]] for d in decls}
 
 
-def ref_home(decls, n, v):
-    for s in range(len(STACKS)):
+def ref_home(decls, n, v, order=(0, 1)):
+    for s in order:
         for d in decls:
             if d["stack"] == s and d["flavor"] == FLAVOR and d["name"] == n and d["version"] == v:
                 return dkey(d)
     return None
 
 
-def ref_doomed(decls, g, c):
+def ref_doomed(decls, g, c, order=(0, 1)):
     """declarations the command is asked to remove: the home of the target and, recursively, the homes of what the
     tables of the doomed declarations denote, where the running flavor declares that version"""
-    top = ref_home(decls, c["args"][0], c["args"][1])
+    top = ref_home(decls, c["args"][0], c["args"][1], order)
     if top is None:
         return None
     doomed, todo = {top}, [top]
@@ -405,7 +435,7 @@ def ref_doomed(decls, g, c):
         for t in g[x]:
             if t is None:
                 continue
-            h = ref_home(decls, t[2], t[3])
+            h = ref_home(decls, t[2], t[3], order)
             if h is not None and h not in doomed:
                 doomed.add(h)
                 todo.append(h)
@@ -471,8 +501,10 @@ def oracle(decls, c, before, res):
         if res["outcome"] != "status:2" or any(before[k] != res["after"][k] for k in ("decls", "tags", "fs")):
             bad.append(("usage-error-acted", "status 2, nothing changed", res["outcome"], "eups remove %s" % " ".join(c["args"])))
         return bad
-    g = ref_graph(decls)
-    doomed = ref_doomed(decls, g, c)
+    sel = order_of(c)                   # -Z: the command's world is the stacks named, in that order
+    decls = [d for d in decls if d["stack"] in sel]
+    g = ref_graph(decls, sel)
+    doomed = ref_doomed(decls, g, c, sel)
     if doomed is None:
         return bad                      # not declared for the running flavor: outside the property; model = code only
     after, oc = res["after"], res["outcome"]
@@ -510,6 +542,12 @@ def oracle(decls, c, before, res):
     for k in sorted(a_decl):
         d = a_decl[k][0]
         if REAL(d) and d in before["fs"]:
+            if k[0] not in sel:
+                # a declaration of a stack that -Z left out: the command cannot know it; its declaration and tags are in the
+                # frame above, its directory is recorded when it goes (an observation, not a verdict)
+                if any(p not in after["fs"] for p in before["fs"] if under(d, p)):
+                    bad.append(("observation:directory-of-a-stack-left-out-by-Z-deleted", None, None, label))
+                continue
             inner = [gd for gd in gone_dirs if gd != d and under(d, gd)]
             lostp = [p for p in before["fs"] if under(d, p) and p not in after["fs"] and not any(under(gd, p) for gd in inner)]
             if lostp:
@@ -517,8 +555,11 @@ def oracle(decls, c, before, res):
                             "%s: %s %s (%s, stack %d) stays declared but its installation directory %s lost %d paths" % (
                                 label, k[2], k[3], k[1], k[0] + 1, d, len(lostp))))
                 break
-    left = [p for p in after["fs"] if any(under(d, p) for d in gone_dirs) and not any(
-        REAL(a_decl[k][0]) and (under(a_decl[k][0], p) or under(p, a_decl[k][0])) for k in a_decl)]
+    # a removed product's directory that holds the installation directory of a declaration that stays is not "that version"
+    # alone any more: the two clauses of the property pull apart there and the property does not say which paths must go
+    surv_dirs = [a_decl[k][0] for k in a_decl if REAL(a_decl[k][0])]
+    claim = [d for d in gone_dirs if not any(under(d, sd) for sd in surv_dirs)]
+    left = [p for p in after["fs"] if any(under(d, p) for d in claim) and not any(under(sd, p) or under(p, sd) for sd in surv_dirs)]
     if left:
         bad.append(("directory-left", [], left[:10], "%s left paths of removed products: %s" % (label, left[:6])))
     # -- outcome
@@ -668,6 +709,126 @@ def history_for(rng, spec):
             rm(b, bv, recursive=rng.random() < 0.3)]
 
 
+def spec_dir(spec, d):
+    """the directory of a declaration as a symbolic path (no scratch base)"""
+    return decl_dir("", spec, d)
+
+
+def twin_relations(spec):
+    """how the directories of two declarations of the SAME name, version and flavor in different stacks relate"""
+    out, ds = [], spec["decls"]
+    for i, a in enumerate(ds):
+        for b in ds[i + 1:]:
+            if (a["name"], a["version"], a["flavor"]) == (b["name"], b["version"], b["flavor"]) and a["stack"] != b["stack"]:
+                da, db = spec_dir(spec, a), spec_dir(spec, b)
+                if "none" in (da, db):
+                    continue
+                first, second = (da, db) if a["stack"] < b["stack"] else (db, da)
+                out.append("shared" if da == db else "second-inside-first" if under(first, second) else
+                           "first-inside-second" if under(second, first) else "apart")
+    return out
+
+
+def gen_twin_spec(rng):
+    """2-4 product names, most of them declared in BOTH stacks for the running flavor with one installation: the very
+    directory (eups declare -r <dir> in a team stack and in a personal stack), or the directory of one declaration inside
+    the other's; chains and shared dependencies between them; now and then a third declaration (another name, or the
+    fall-back flavor) living in the same directory"""
+    n = rng.randint(2, 4)
+    names = ["q%d" % i for i in range(1, n + 1)]
+    decls = []
+    for i, nm in enumerate(names):
+        later = names[i + 1:]
+        deps = [(t, rng.choice(["1", None]), rng.random() < 0.15) for t in rng.sample(later, min(len(later), rng.choice([0, 1, 1, 2])))]
+        st = rng.randint(0, 1)
+        tags = ["current"] + (["stable"] if rng.random() < 0.3 else [])
+        first = len(decls)
+        decls.append(D(st, FLAVOR, nm, "1", deps, tags=tags, dir=rng.choice(["in", "in", "out"])))
+        r = rng.random()
+        if r < 0.8:
+            rel = rng.choice(["share", "share", "share", "inside", "holds", "apart"])
+            twin = D(1 - st, FLAVOR, nm, "1", deps if rng.random() < 0.8 else [], tags=[t for t in tags if rng.random() < 0.7],
+                     dir={"share": ["share", first], "inside": ["inside", first], "apart": "in"}.get(rel, rng.choice(["in", "out"])))
+            decls.append(twin)
+            if rel == "holds":
+                decls[first]["dir"] = ["inside", first + 1]
+            if rng.random() < 0.2:
+                decls.append(D(rng.randint(0, 1), rng.choice(FLAVORS), nm + "x", "1", [], dir=["share", first]))
+        elif r < 0.9:
+            decls.append(D(st, "generic", nm, "1", deps, tags=[], dir=["share", first]))
+    return {"shape": "same-product-both-stacks", "decls": decls}
+
+
+def twin_cases(rng, spec, per_spec):
+    natives = sorted(set((d["name"], d["version"]) for d in spec["decls"] if d["flavor"] == FLAVOR))
+    cs = [{"via": rng.choice(["cli", "api"]), "args": [n, v], "recursive": rec, "check": chk, "force": force, "interactive": None}
+          for (n, v) in natives for rec in (False, True) for chk, force in ((False, False), (True, True), (True, False))]
+    rng.shuffle(cs)
+    cs = cs[:per_spec]
+    n, v = rng.choice(natives)
+    cs.append({"via": rng.choice(["cli", "api"]), "args": [n, v], "recursive": True, "check": False, "force": False,
+               "interactive": True, "answers": answers_for(rng)})
+    for c in cs:                                  # -Z: the stacks the other way round (removal from the second stack), or one only
+        if rng.random() < 0.4:
+            c["path"] = rng.choice([[1, 0], [1, 0], [1, 0], [1], [0]])
+    return cs
+
+
+def twin_history(rng, spec):
+    """several removals on ONE Eups object: the same version twice (first the declaration of the first stack, then the one
+    of the second stack), with other products in between"""
+    natives = sorted(set((d["name"], d["version"]) for d in spec["decls"] if d["flavor"] == FLAVOR))
+    both = sorted(set((d["name"], d["version"]) for d in spec["decls"] if d["flavor"] == FLAVOR and d["stack"] == 0) &
+                  set((d["name"], d["version"]) for d in spec["decls"] if d["flavor"] == FLAVOR and d["stack"] == 1)) or natives
+    rm = lambda nv, **kw: dict({"via": "api", "args": list(nv), "recursive": False, "check": False, "force": False,  # noqa
+                                "interactive": None}, **kw)
+    a = rng.choice(both)
+    h = [rm(a, recursive=rng.random() < 0.3, check=rng.random() < 0.3, force=rng.random() < 0.5)]
+    if rng.random() < 0.5:
+        h.append(rm(rng.choice(natives), recursive=rng.random() < 0.3))
+    h.append(rm(a, recursive=rng.random() < 0.3))
+    if rng.random() < 0.4:
+        h.append(rm(rng.choice(natives), recursive=True, force=True, check=True))
+    if rng.random() < 0.4:
+        h = [dict(st, path=[1, 0]) for st in h]
+    return h
+
+
+def directed_twins():
+    """the same name, version and flavor declared in both stacks on EUPS_PATH with ONE installation (the very directory, or
+    one directory inside the other); removal recursive and not, checked and not, from the command line and through the
+    interface, and the version removed twice on one Eups object (first stack, then second stack)"""
+    L, G = FLAVOR, "generic"
+    rm = lambda n, v, **kw: dict({"via": "cli", "args": [n, v], "recursive": False, "check": True, "force": False,  # noqa
+                                  "interactive": None}, **kw)
+    api = lambda n, v, **kw: rm(n, v, via="api", **kw)  # noqa
+    out = []
+    plain = [rm("t", "1"), rm("t", "1", check=False), api("t", "1"), api("t", "1", check=False), rm("t", "1", recursive=True),
+             rm("t", "1", recursive=True, check=False), rm("t", "1", force=True), rm("o", "2"),
+             rm("t", "1", interactive=True, answers=["y"], check=False)]
+    twice = [[api("t", "1", check=False), api("t", "1", check=False)], [api("t", "1"), api("o", "2"), api("t", "1", recursive=True)]]
+    for shape, ds in [
+            ("shared-outside", [D(0, L, "t", "1", dir="out"), D(1, L, "t", "1", dir=["share", 0]), D(1, L, "o", "2")]),
+            ("shared-in-first-stack", [D(0, L, "t", "1"), D(1, L, "t", "1", dir=["share", 0]), D(1, L, "o", "2")]),
+            ("shared-in-second-stack", [D(0, L, "t", "1", dir=["share", 1]), D(1, L, "t", "1"), D(0, L, "o", "2")]),
+            ("second-inside-first", [D(0, L, "t", "1", dir="out"), D(1, L, "t", "1", dir=["inside", 0]), D(1, L, "o", "2")]),
+            ("first-inside-second", [D(0, L, "t", "1", dir=["inside", 1]), D(1, L, "t", "1", dir="out"), D(0, L, "o", "2")]),
+            ("shared-and-other-flavor", [D(0, L, "t", "1", dir="out"), D(1, L, "t", "1", dir=["share", 0]),
+                                         D(1, G, "t", "1", dir=["share", 0], tags=[]), D(1, L, "o", "2")])]:
+        z = [dict(c, path=pth) for pth in ([1, 0], [1], [0]) for c in (plain[0], plain[1], plain[3], plain[5])]
+        twice_z = [[dict(st, path=[1, 0]) for st in twice[0]]]
+        out.append(({"shape": "same-product-both-stacks/" + shape, "decls": ds}, plain + z, twice + twice_z))
+    # ... with a dependency installed the same way: t 1 -> d 1, both in both stacks, each pair in one directory
+    dd = [D(0, L, "t", "1", [("d", "1", False)], dir="out"), D(1, L, "t", "1", [("d", "1", False)], dir=["share", 0]),
+          D(0, L, "d", "1", dir="out"), D(1, L, "d", "1", dir=["share", 2]), D(1, L, "o", "2", [("d", None, False)])]
+    out.append(({"shape": "same-product-both-stacks/with-dependency", "decls": dd},
+                [rm("t", "1", recursive=True), rm("t", "1", recursive=True, check=False), rm("t", "1", recursive=True, force=True),
+                 api("t", "1", recursive=True, check=False), rm("d", "1"), rm("d", "1", check=False), rm("d", "1", force=True)],
+                [[api("t", "1", recursive=True, check=False), api("t", "1", recursive=True, check=False)],
+                 [api("d", "1", check=False), api("t", "1", check=False), api("d", "1", check=False), api("t", "1", check=False)]]))
+    return out
+
+
 def directed():
     """one directed stack per construct of the extension; (spec, cases, histories)"""
     L, G = FLAVOR, "generic"
@@ -745,21 +906,39 @@ def compare_one(ctx, spec, decls, c, before, edges, r, mline, variant, extra_key
     ctx.traces_validated += 1
     if variant == "fixed":
         for kind, exp, obs, what in oracle(decls, c, before, {"outcome": m["outcome"], "msg": "model", "after": m}):
+            if kind.startswith("observation:"):
+                continue
             ctx.disagree(case, obs, exp, where="the oracle (%s) is false of the model: %s" % (kind, what[:200]))
     fails = []
     for kind, exp, obs, what in oracle(decls, c, before, r):
+        if kind.startswith("observation:"):
+            ctx.bump(kind)
+            continue
         ctx.fail(kind, case, expected=exp, observed=obs, what=what)
         fails.append(kind)
     flags = "%s%s%s%s" % ("R" if c.get("recursive") else "-", "C" if c.get("check", True) else "-", "F" if c.get("force") else "-",
                           "I" if c.get("interactive") else "-")
-    g = ref_graph(decls)
-    doomed = ref_doomed(decls, g, c) if len(c["args"]) >= 2 else None
+    sel = order_of(c)
+    decls = [d for d in decls if d["stack"] in sel]
+    g = ref_graph(decls, sel)
+    doomed = ref_doomed(decls, g, c, sel) if len(c["args"]) >= 2 else None
     need = ref_needed(g, doomed) if doomed else []
     nontriv = doomed is not None and (len(doomed) >= 2 or bool(need) or bool(c.get("interactive")))
+    if c.get("path"):
+        extra_key += "/-Z-" + "-".join(STACKS[i][1:] for i in sel)
     ctx.count(1, key="whole-command%s/%s/%s/%s" % (extra_key, c["via"], flags, r["outcome"]),
               nontrivial=json.dumps([sorted(doomed), sorted(set(u for _d, u in need)), flags, c.get("answers", [])[:6]]) if nontriv else None)
     if c.get("interactive"):
         ctx.bump("questions/%s" % ref_verdicts(len(doomed or []), c)[1])
+    # a declaration went whose installation a declaration of the SAME name, version and flavor in the other stack keeps
+    bk = {(STACKS.index(x[0]), x[1], x[2], x[3]): x[4] for x in before["decls"]}
+    ak = {(STACKS.index(x[0]), x[1], x[2], x[3]): x[4] for x in r["after"]["decls"]}
+    for k in sorted(set(bk) - set(ak)):
+        o = (1 - k[0],) + k[1:]
+        if o in ak and REAL(bk[k]) and REAL(ak[o]) and (under(bk[k], ak[o]) or under(ak[o], bk[k])):
+            ctx.bump("same-product-other-stack-stays/%s/removed-from-stack-%d/%s%s" % (
+                "shared" if bk[k] == ak[o] else "survivor-inside" if under(bk[k], ak[o]) else "survivor-holds", k[0] + 1,
+                "recursive" if c.get("recursive") else "plain", extra_key))
     if need and c.get("check", True) and not c.get("force"):
         u = need[0][1]
         ctx.bump("survivor-needing/%s" % ("other-declaration-of-target" if (u[2], u[3]) == tuple(c["args"][:2]) else
@@ -783,7 +962,9 @@ def features(ctx, spec):
         ctx.bump("feature/global-tag-in-both-stacks")
     for d in decls:
         k = d.get("dir", "in")
-        ctx.bump("feature/directory-%s" % ("shared" if isinstance(k, list) else k))
+        ctx.bump("feature/directory-%s" % (("shared" if k[0] == "share" else "inside-another") if isinstance(k, list) else k))
+    for rel in twin_relations(spec):
+        ctx.bump("feature/same-product-both-stacks-directory-%s" % rel)
 
 
 def run_jobs(ctx, jobs, variant="fixed", nproc=None):
@@ -794,7 +975,7 @@ def run_jobs(ctx, jobs, variant="fixed", nproc=None):
         if "child_error" in i:
             raise RuntimeError("implementation driver failed on a two-stack spec: %r" % (i["child_error"],))
         for c, r in zip(j["cases"], i["results"]):
-            plan.append((j["spec"], j["spec"]["decls"], c, i["before"], i["edges"], r, ""))
+            plan.append((j["spec"], j["spec"]["decls"], c, i["before"], r.get("edges", i["edges"]), r, ""))
         for h, steps in zip(j.get("histories", []), i["histories"]):
             decls = list(j["spec"]["decls"])
             for step, s in zip(h, steps):
@@ -821,8 +1002,14 @@ def run_jobs(ctx, jobs, variant="fixed", nproc=None):
 
 def run(ctx, variant="fixed"):
     rng = ctx.rng
-    jobs = [{"spec": s, "cases": cs, "histories": hs} for s, cs, hs in directed()]
+    jobs = [{"spec": s, "cases": cs, "histories": hs} for s, cs, hs in directed() + directed_twins()]
     run_jobs(ctx, jobs, variant)
+    jobs = []
+    for _ in range(ctx.size(16, 200)):
+        s = gen_twin_spec(rng)
+        jobs.append({"spec": s, "cases": twin_cases(rng, s, ctx.size(8, 24)), "histories": [twin_history(rng, s)]})
+    for i in range(0, len(jobs), 100):
+        run_jobs(ctx, jobs[i:i + 100], variant)
     n = ctx.size(30, 400)
     jobs = []
     for _ in range(n):
